@@ -197,7 +197,7 @@ func (g *tg) template(d int) val.V {
 		case 0:
 			return val.I(g.pick("ti", 9))
 		case 1:
-			return sym(rapid.SampledFrom([]string{"a", "p0", "unquote", "splice-unquote", "quote", "x", "list"}).Draw(g.t, "tsym"))
+			return sym(rapid.SampledFrom([]string{"a", "p0", "unquote", "splice-unquote", "quote", "x", "list", "quasiquote"}).Draw(g.t, "tsym"))
 		case 2:
 			return val.K("k")
 		case 3:
@@ -220,9 +220,13 @@ func (g *tg) template(d int) val.V {
 		case c <= 3:
 			g.splice++
 			xs = append(xs, call("splice-unquote", g.uexpr(true)))
-		case c <= 6:
+		case c <= 5:
 			g.nested++
 			xs = append(xs, g.template(d-1))
+		case c == 6:
+			// a nested template: the language keeps no nesting level, unquotes inside it are replaced all the same
+			g.nested++
+			xs = append(xs, call(rapid.SampledFrom([]string{"quasiquote", "quote"}).Draw(g.t, "nestq"), g.template(d-1)))
 		default:
 			xs = append(xs, g.template(0))
 		}
@@ -257,6 +261,7 @@ type minfo struct {
 	rest      bool
 	params    []string
 	recursive bool // first operand must be a small literal counter
+	extra     []string // names the template may also unquote (the parameter of a macro factory)
 }
 
 func nonRec(ms []minfo) []minfo {
@@ -274,7 +279,8 @@ func (g *mg) nextTrace() val.V             { g.trace++; return val.I(100 + g.tra
 
 func (g *mg) code(d int, m minfo) val.V {
 	uq := func() val.V {
-		return call("unquote", sym(m.params[g.pick("cparam", len(m.params))]))
+		ps := append(append([]string{}, m.params...), m.extra...)
+		return call("unquote", sym(ps[g.pick("cparam", len(ps))]))
 	}
 	if d <= 0 || g.pick("cleaf", 10) < 3 {
 		switch g.pick("cleafk", 6) {
@@ -285,13 +291,16 @@ func (g *mg) code(d int, m minfo) val.V {
 		case 2:
 			return sym("w") // a free variable: resolved in the caller's scope
 		}
-		if len(m.params) == 0 {
+		if len(m.params)+len(m.extra) == 0 {
 			return sym("w")
 		}
 		return uq()
 	}
 	a := func() val.V { return g.code(d-1, m) }
-	switch c := g.pick("ckind", 14); {
+	switch c := g.pick("ckind", 15); {
+	case c == 14:
+		// the expansion holds a template of its own
+		return call("quasiquote", lst(a(), a()))
 	case c >= 12:
 		if prev := nonRec(g.macros); len(prev) > 0 {
 			p := prev[0]
@@ -393,6 +402,7 @@ func (g *mg) mcall(d int) val.V {
 
 func genMacroCase(t *rapid.T) Case {
 	g := &mg{t: t}
+	factoryOf := ""
 	defs := []val.V{call("def", sym("w"), val.I(1))}
 	nm := rapid.IntRange(1, 3).Draw(t, "nmacros")
 	for i := 0; i < nm; i++ {
@@ -439,7 +449,22 @@ func genMacroCase(t *rapid.T) Case {
 		if g.pick("pvec", 2) == 0 {
 			pv.K = val.Vec
 		}
-		defs = append(defs, call("defmacro", sym(m.name), call("fn", pv, body)))
+		factory := i == 0 && !m.recursive && g.pick("factory", 4) == 0
+		if factory {
+			// the macro is a closure made by a factory; its template also unquotes the factory's parameter
+			m.extra = []string{"k"}
+			body = call("quasiquote", g.code(3, m))
+			factoryOf = m.name
+		}
+		if g.pick("expansion-effect", 5) == 0 {
+			body = call("do", call("trace!", g.nextTrace()), body) // an effect at expansion time
+		}
+		if factory {
+			defs = append(defs, call("def", sym("mk-"+m.name), call("fn", lst(sym("k")), call("fn", pv, body))))
+			defs = append(defs, call("defmacro", sym(m.name), call("mk-"+m.name, val.I(2))))
+		} else {
+			defs = append(defs, call("defmacro", sym(m.name), call("fn", pv, body)))
+		}
 		g.macros = append(g.macros, m)
 	}
 	// calls: recursive macros get a literal counter
@@ -488,6 +513,16 @@ func genMacroCase(t *rapid.T) Case {
 		// mention that name are evaluated in the caller's scope and must call the function
 		m := g.macros[0]
 		c = call("let", lst(sym(m.name), call("fn", lst(sym("&"), sym("xs")), call("list", val.K("local-fn"), sym("xs")))), c)
+	}
+	if factoryOf != "" || g.pick("twice", 5) == 0 {
+		// the same call form, read once, is evaluated twice; in between the macro name may be re-defined
+		// to another closure of the same factory
+		defs = append(defs, call("def", sym("caller"), call("fn", lst(), c)))
+		second := call("caller")
+		if factoryOf != "" && g.pick("redef", 3) > 0 {
+			second = call("do", call("defmacro", sym(factoryOf), call("mk-"+factoryOf, val.I(3))), call("caller"))
+		}
+		c = call("list", call("caller"), second)
 	}
 	return Case{Mode: "macro", Defs: defs, Call: c, Short: rapid.Bool().Draw(t, "short")}
 }
